@@ -64,18 +64,22 @@ async def main_async(ctx, tree, configs, rnd, out):
                 writer.close()
             except Exception:
                 pass
-    # three ports, each listening on the three loopback addresses
+    # three CONSECUTIVE ports (off-by-one in port matching must be visible), each listening on the three loopback addresses
     ports, servers = [], []
-    while len(ports) < 3:
+    for attempt in range(60):
+        base = squidctl.free_port()
+        got = []
         try:
-            s1 = await asyncio.start_server(handle, '127.0.0.1', 0)
-            p = s1.sockets[0].getsockname()[1]
-            s2 = await asyncio.start_server(handle, '127.0.0.2', p)
-            s3 = await asyncio.start_server(handle, '127.0.0.3', p)
-            ports.append(p)
-            servers += [s1, s2, s3]
+            for p in (base, base + 1, base + 2):
+                for ip in ('127.0.0.1', '127.0.0.2', '127.0.0.3'):
+                    got.append(await asyncio.start_server(handle, ip, p))
+            ports, servers = [base, base + 1, base + 2], got
+            break
         except OSError:
-            continue
+            for sv in got:
+                sv.close()
+    if not ports:
+        raise vlib.MachineryError('no three consecutive free ports found')
     universe = [{'src': s, 'dstip': HOSTS[h], 'host': h, 'port': p, 'method': m} for s in ('127.0.0.1', '127.0.0.2') for h in HOSTS for p in (1, 2, 3)
                 for m in ('GET', 'POST', 'PUT', 'FOO')]
     sem = asyncio.Semaphore(4)
